@@ -149,6 +149,9 @@ def _alphabet() -> list[L]:
         L("Dose: 1 mL", "Dose", "mL"),
         L("Dose: 1", "Dose", "no-unit"),
         L("Dose: 1 kg", "Dose", "other-quantity"),
+        L("Area: 2 m2", "Area", "m2"),
+        L("Area: ~2 m2", "Area", "match-not-at-start"),
+        L("Area: 2", "Area", "no-unit"),
         L("Inst", "Inst", "none", arg=False),
         L("Inst: 1", "Inst", "unexpected-argument"),
         L("Pause: 0.2s", "Pause", "duration"),
